@@ -1,8 +1,10 @@
 """C18 - prolongation is exact on the coarse space; restriction is its transpose.
 
 Streams
-  algebra : `inv` (Math::invert_matrix) and `xfer` (SparseMatrixCSR::transpose + LAFEM::Transfer) on random data;
-            real code vs Lean model + oracle.
+  algebra : `inv` (Math::invert_matrix), `xfer` (SparseMatrixCSR::transpose + LAFEM::Transfer) and `gxfer` / `gforbid`
+            (Global::Transfer: no muxer, non-child muxer, single-process muxer that is child and parent) on random data;
+            real code vs Lean model + oracle.  Every `fe` case also wraps its assembled P / R / T into the three
+            Global::Transfer set-ups and compares prol / rest / trunc / trunc(prol(x)) with the matrices.
   fe      : real GridTransfer::assemble_prolongation(_direct) / assemble_truncation(_direct) / prolongate_vector(_direct)
             and LAFEM::Transfer on refined meshes at the exact scalar Q.  The case line carries the configuration AND the
             ingredients the assembly loops see (dumped by the harness through the real evaluators); the Lean model
@@ -269,12 +271,30 @@ def gen_xfer(rng):
     return "xfer %s %s %s %s" % (p, t, fmt_q(x), fmt_q(y))
 
 
+def gen_gxfer(rng):
+    """Global::Transfer around random P / T (T has the dimensions of P^T but other entries, so that calling the wrong
+    stored matrix is visible)"""
+    r = rng.choice([1, 2, 3, 5, 8])
+    c = rng.choice([1, 2, 3, 5])
+    p = gen_csr(rng, r, c, rng.choice([0.3, 0.6, 1.0]))
+    t = gen_csr(rng, c, r, rng.choice([0.3, 0.6, 1.0]))
+    x = [small_q(rng) for _ in range(c)]
+    y = [small_q(rng) for _ in range(r)]
+    return "gxfer %s %s %s %s" % (p, t, fmt_q(x), fmt_q(y))
+
+
 CORPUS = [
     # diagonal pivoting cannot invert this regular matrix: documented limitation, must abort (not return garbage) at Q
     "inv 2 2 0/1 1/1 1/1 0/1",
     "inv 1 1 0/1",
     "inv 3 5 2/1 -1/1 0/1 -1/1 2/1 -1/1 0/1 -1/1 2/1",
     "xfer 2 2 3 0 0 0 0 0 2 2 3 0 0 0 0 0 2 1/1 2/1 2 3/1 4/1",
+    "gxfer 3 2 4 0 2 3 4 4 0 1 1 0 4 1/1 2/1 3/1 4/1 2 3 3 0 2 3 3 0 2 1 3 5/1 6/1 7/1 2 1/1 2/1 3 1/1 2/1 3/1",
+    # the ghost-only halves and prol_cancel on a process that is child and parent: must assert, not compute
+    "gforbid 0 3 2 4 0 2 3 4 4 0 1 1 0 4 1/1 2/1 3/1 4/1 2 3 3 0 2 3 3 0 2 1 3 5/1 6/1 7/1 2 1/1 2/1 3 1/1 2/1 3/1",
+    "gforbid 1 3 2 4 0 2 3 4 4 0 1 1 0 4 1/1 2/1 3/1 4/1 2 3 3 0 2 3 3 0 2 1 3 5/1 6/1 7/1 2 1/1 2/1 3 1/1 2/1 3/1",
+    "gforbid 2 3 2 4 0 2 3 4 4 0 1 1 0 4 1/1 2/1 3/1 4/1 2 3 3 0 2 3 3 0 2 1 3 5/1 6/1 7/1 2 1/1 2/1 3 1/1 2/1 3/1",
+    "gforbid 3 3 2 4 0 2 3 4 4 0 1 1 0 4 1/1 2/1 3/1 4/1 2 3 3 0 2 3 3 0 2 1 3 5/1 6/1 7/1 2 1/1 2/1 3 1/1 2/1 3/1",
     "xfer 3 1 4 0 1 1 2 2 0 0 2 1/1 2/1 1 3 2 0 3 3 0 1 2 3 1/1 1/1 1/1 1 5/1 3 1/1 2/1 3/1",
 ]
 CORPUS_CFG = [
@@ -480,6 +500,29 @@ def rand_vectors(case, n, count=2):
         [[F(1) if i == k else F(0) for i in range(n)] for k in ([rng.randrange(n)] if n else [])]
 
 
+def check_global(o, p, pt, t, x, y, what_exact):
+    """sections LT GU GN FLAGS GM: every transfer object must give P x, P^T y, T y, T P x"""
+    px = matvec(p, x)
+    exp = [px, matvec(pt, y), matvec(t, y), matvec(t, px)]
+    names = ["prol is not P x", "rest is not P^T y (wrong stored matrix?)", "trunc is not T y (wrong stored matrix?)",
+             "trunc(prol(x)) is not T P x"]
+    for tag, who in (("LT", "LAFEM::Transfer"), ("GU", "un-muxed Global::Transfer"),
+                     ("GN", "Global::Transfer with a non-child muxer"), ("GM", "muxed Global::Transfer")):
+        if tag == "GM":
+            o.expect("FLAGS")
+            fl = [o.nat(), o.nat(), o.nat()]
+            if fl != [1, 1, 0]:
+                return "single-process muxer is not child+parent (flags %s): the muxed branch is not exercised" % fl
+        o.expect(tag)
+        for k in range(4):
+            v = o.qlist()
+            if v != exp[k]:
+                return "%s: %s" % (who, names[k])
+        if what_exact and exp[3] != x:
+            return "trunc(prol(x)) != x"
+    return None
+
+
 def oracle(case, out):
     try:
         return _oracle(case, out)
@@ -546,6 +589,19 @@ def _oracle(case, out):
         if o.qlist() != matvec(t, y):
             return "Transfer::trunc is not T y"
         return None
+    if op == "gforbid":
+        return None if out.startswith("ABORT") else "a ghost-only member / prol_cancel did not assert: " + out[:60]
+    if op == "gxfer":
+        pr, pc, prp, pci, pva = c.csr()
+        tr, tc, trp, tci, tva = c.csr()
+        x, y = c.qlist(), c.qlist()
+        if is_abnormal(out):
+            return "global transfer operators ended with " + out
+        p = csr_dense(pr, pc, prp, pci, pva)
+        t = csr_dense(tr, tc, trp, tci, tva)
+        o = Tk(out)
+        o.expect("G")
+        return check_global(o, p, transpose(p, pr, pc), t, x, y, False)
     if op in ("fe", "feo"):
         cfg = c.config()
         suff, exact = rule_info(cfg["shape"], cfg["space"], cfg["cub"], bool(cfg["offsets"]))
@@ -575,6 +631,10 @@ def _oracle(case, out):
             o.expect("XP"); xp = o.qlist()
             o.expect("XR"); xr = o.qlist()
             o.expect("XT"); xt = o.qlist()
+            o.expect("G")
+            e = check_global(o, pd, r, td, x, y, exact == "exact")
+            if e:
+                return e
             if len(pd) != nf or any(len(row) != nc for row in pd):
                 return "prolongation has wrong dimensions"
             if any(v <= 0 for v in w) or w != vw:
@@ -670,8 +730,10 @@ def nontrivial(case):
     t = case.split(None, 8)
     if t[0] == "inv":
         return int(t[1]) >= 2
-    if t[0] == "xfer":
+    if t[0] in ("xfer", "gxfer"):
         return len(case.split()) > 24
+    if t[0] == "gforbid":
+        return True
     if t[0] in ("fe", "feo"):
         return not (t[2] == "d0" and t[4] == "0")
     return False
@@ -730,7 +792,8 @@ def main(argv):
     lean = None if args.no_lean else vlib.lean_check(PROP, leanchecker=(args.tier == "thorough"))
     d = os.path.join(vlib.VERIF, "harness", "c18")
     binary, err = vlib.build_harness("c18", os.path.join(d, "main.cpp"),
-                                     extra_srcs=[os.path.join(d, "fe_%s.cpp" % s) for s in ("quad", "tria", "hexa", "tetra")])
+                                     extra_srcs=[os.path.join(d, "fe_%s.cpp" % s) for s in ("quad", "tria", "hexa", "tetra")] +
+                                     [os.path.join(d, "gxfer.cpp")])
     if binary is None:
         v = [{"property": PROP, "kind": "harness-build-failure", "detail": err, "failing_input": None,
               "broken": "harness c18 does not compile against the current tree"}]
@@ -739,19 +802,22 @@ def main(argv):
     skipped = 0
     if args.replay:
         case = json.load(open(args.replay))["input"]
-        alg = [case] if case.split()[0] in ("inv", "xfer") else []
+        alg = [case] if case.split()[0] in ("inv", "xfer", "gxfer", "gforbid") else []
         fe = [case] if case.startswith("fe ") else []
         feo = [case] if case.startswith("feo ") else []
     else:
         n_alg, n_fe = (1500, 50) if args.tier == "quick" else (20000, 350)
         alg = list(CORPUS)
         for _ in range(n_alg):
-            if rng.random() < 0.6:
+            k = rng.random()
+            if k < 0.55:
                 line, kind = gen_inv(rng)
                 INV_KIND[line] = kind
                 alg.append(line)
-            else:
+            elif k < 0.85:
                 alg.append(gen_xfer(rng))
+            else:
+                alg.append(gen_gxfer(rng))
         cfgs = list(CORPUS_CFG) + perm_state_cfgs() + [gen_config(rng, args.tier) for _ in range(n_fe)]
         fe, feo, skipped = build_fe_cases(rng, binary, cfgs)
     streams = []
@@ -780,5 +846,6 @@ def main(argv):
         "the CSR layout of the prolongation matrix (SymbolicAssembler 2-level graph) is an input of the fe cases; its "
         "validity (hypothesis of C18.restriction_is_transpose) is checked per case by the oracle, not proved",
         "PermutationStrategy::lexicographic cannot be instantiated at Q (static constexpr Coord_ tol_) and is not covered",
-        "Global::Transfer / Muxer (MPI) level of the property is not covered by this check (C13 covers synchronisation)"],
+        "Global::Transfer is run on one process (un-muxed and muxed branch with the serial Dist::Comm); the ghost-only "
+        "members (_send/_recv) are only checked to assert there; multi-process join/split/sync is C13's subject"],
         extra_cov={"rule": rule, "skipped_unknown_rule": skipped})
